@@ -65,6 +65,10 @@ pub trait World: Send + Sync {
     fn par_execute(&self, n: usize, job: &(dyn Fn(Range<usize>) + Sync));
     /// A point at which the world may switch to another pool thread.
     fn yield_point(&self, tag: &'static str);
+    /// `rayon::current_num_threads()`
+    fn pool_threads(&self) -> usize {
+        1
+    }
 }
 
 static WORLD: OnceLock<Box<dyn World>> = OnceLock::new();
@@ -568,9 +572,79 @@ pub mod par {
         }
     }
 
-    /// Present so that `use rayon::prelude::*` code naming it keeps compiling.
-    pub trait IndexedParallelIterator: ParallelIterator {}
+    /// The adaptors of rayon's indexed iterators that a fan-out over a path list plausibly uses.
+    /// (`with_min_len`/`with_max_len` only constrain how rayon may split; the world's grouping
+    /// is a superset of rayon's, so they are accepted and ignored.)
+    pub trait IndexedParallelIterator: ParallelIterator {
+        fn chunks(self, chunk_size: usize) -> Chunks<Self> {
+            assert!(chunk_size != 0, "chunk_size must not be zero");
+            Chunks {
+                base: self,
+                size: chunk_size,
+            }
+        }
+        fn enumerate(self) -> Enumerate<Self> {
+            Enumerate { base: self }
+        }
+        fn with_min_len(self, _min: usize) -> Self {
+            self
+        }
+        fn with_max_len(self, _max: usize) -> Self {
+            self
+        }
+    }
     impl<I: ParallelIterator> IndexedParallelIterator for I {}
+
+    pub struct Chunks<I> {
+        base: I,
+        size: usize,
+    }
+    impl<I: ParallelIterator> ParallelIterator for Chunks<I> {
+        type Item = Vec<I::Item>;
+        fn base_len(&self) -> usize {
+            self.base.base_len().div_ceil(self.size)
+        }
+        fn run_group(
+            &self,
+            range: Range<usize>,
+            stop: &dyn Fn() -> bool,
+            sink: &mut dyn FnMut(Vec<I::Item>),
+        ) {
+            for chunk in range {
+                if stop() {
+                    return;
+                }
+                let start = chunk * self.size;
+                let end = (start + self.size).min(self.base.base_len());
+                let mut items = Vec::with_capacity(end - start);
+                self.base
+                    .run_group(start..end, &|| false, &mut |item| items.push(item));
+                sink(items);
+            }
+        }
+    }
+
+    pub struct Enumerate<I> {
+        base: I,
+    }
+    impl<I: ParallelIterator> ParallelIterator for Enumerate<I> {
+        type Item = (usize, I::Item);
+        fn base_len(&self) -> usize {
+            self.base.base_len()
+        }
+        fn run_group(
+            &self,
+            range: Range<usize>,
+            stop: &dyn Fn() -> bool,
+            sink: &mut dyn FnMut((usize, I::Item)),
+        ) {
+            let mut index = range.start;
+            self.base.run_group(range, stop, &mut |item| {
+                sink((index, item));
+                index += 1;
+            });
+        }
+    }
 
     pub trait IntoParallelIterator {
         type Iter: ParallelIterator<Item = Self::Item>;
@@ -838,6 +912,9 @@ pub mod shadow {
         }
     }
     pub mod rayon {
+        pub fn current_num_threads() -> usize {
+            crate::verif_seam::world().pool_threads().max(1)
+        }
         pub mod prelude {
             pub use crate::verif_seam::par::{
                 IndexedParallelIterator, IntoParallelIterator, IntoParallelRefIterator,
